@@ -560,7 +560,7 @@ class AsyncFIXConnection:
 
         Returns:
             True - no gap, MsgSeqNum is correct
-            False - there is a gap, ResendRequest() sent
+            False - there is a gap, ResendRequest() sent, or MsgSeqNum is too low
         """
         if msg_seq_num > self._session.next_num_in:
             if self._connection_state != ConnectionState.RESENDREQ_AWAITING:
@@ -573,7 +573,8 @@ class AsyncFIXConnection:
                 await self._state_set(ConnectionState.RESENDREQ_AWAITING)
             return False
 
-        return True
+        # too low MsgSeqNum (duplicate) must not be processed again
+        return msg_seq_num == self._session.next_num_in
 
     async def _process_logout(self, logout_msg: FIXMessage):
         """Processes incoming Logout(35=5) message.
@@ -689,6 +690,9 @@ class AsyncFIXConnection:
 
         Args:
             seqreset_msg: SequenceReset(35=4) FIXMessage
+
+        Returns:
+            True - if new NewSeqNo applied, False - message ignored
         """
         assert seqreset_msg.msg_type == FMsg.SEQUENCERESET
 
@@ -697,6 +701,14 @@ class AsyncFIXConnection:
                 self.log.warning(
                     "Getting SEQUENCERESET(GapFillFlag=Y) while not filling gaps"
                 )
+            # Gap fill is a part of the message sequence, it is applicable only
+            #  when its own MsgSeqNum is expected, and it can only move forward
+            if (
+                int(seqreset_msg[FTag.MsgSeqNum]) != self._session.next_num_in
+                or int(seqreset_msg[FTag.NewSeqNo]) <= self._session.next_num_in
+            ):
+                self.log.warning(f"Ignoring SEQUENCERESET(GapFillFlag=Y): {seqreset_msg}")
+                return False
         else:
             self.log.info(f"SequenceReset received from peer: {seqreset_msg}")
 
@@ -710,6 +722,7 @@ class AsyncFIXConnection:
         self._journaler.set_seq_num(
             self._session, next_num_in=int(seqreset_msg[FTag.NewSeqNo])
         )
+        return True
 
     async def _finalize_message(self, msg: FIXMessage, raw_msg: bytes):
         """Final message processing (MsgSeqNum checks / journaling).
@@ -797,7 +810,18 @@ class AsyncFIXConnection:
                 logout_message=err_msg if isinstance(err_msg, str) else None,
             )
             return
+
+        if (
+            msg.msg_type != FMsg.SEQUENCERESET
+            and FTag.MsgSeqNum in msg
+            and int(msg[FTag.MsgSeqNum]) < self._session.next_num_in
+        ):
+            # Already processed message (tolerated while gaps are being filled)
+            self.log.debug(f"_process_message: skipped too low MsgSeqNum msg: {msg}")
+            return
+
         is_valid_msg_num = False
+        is_seqreset_applied = False
         try:
             assert self._connection_state >= ConnectionState.NETWORK_CONN_ESTABLISHED
 
@@ -815,7 +839,7 @@ class AsyncFIXConnection:
             if msg.msg_type == FMsg.LOGON:
                 await self._process_logon(msg)
             elif msg.msg_type == FMsg.SEQUENCERESET:
-                await self._process_seqreset(msg)
+                is_seqreset_applied = await self._process_seqreset(msg)
             elif msg.msg_type == FMsg.LOGOUT:
                 await self._process_logout(msg)
 
@@ -824,7 +848,14 @@ class AsyncFIXConnection:
                 return
 
             msg_seq_num = int(msg[FTag.MsgSeqNum])
-            is_valid_msg_num = await self._check_seqnum_gaps(msg_seq_num)
+            if msg.msg_type == FMsg.SEQUENCERESET:
+                # NewSeqNo already applied (or ignored), only too high MsgSeqNum
+                #  of ignored gap fill has to be requested again
+                is_valid_msg_num = is_seqreset_applied
+                if not is_seqreset_applied:
+                    await self._check_seqnum_gaps(msg_seq_num)
+            else:
+                is_valid_msg_num = await self._check_seqnum_gaps(msg_seq_num)
 
             if msg.msg_type == FMsg.RESENDREQUEST:
                 await self._process_resend(msg)
